@@ -110,6 +110,12 @@ def run_one(exe, workdir, tag, prog, Guser, cfg, props, backend):
         return [("GEN", "reference evaluation failed: %s" % e)], "invalid", ref
     if ref.errors:
         return [("GEN", "; ".join(ref.errors[:3]))], "invalid", ref
+    erank_table = []
+    if P > 1:
+        dtab, etab = ref.ownership_tables(P)
+        if dtab is None:
+            return [], "skipped_remote_reference", ref
+        rank_table, erank_table = dtab, etab
     expected = [0] * P
     for ci in range(len(prog.classes)):
         for idx in ref.spaces[ci]:
@@ -121,7 +127,7 @@ def run_one(exe, workdir, tag, prog, Guser, cfg, props, backend):
     while True:
         c2 = dict(cfg)
         c2["tq_ms"] = tq
-        rr = ptgrun.run_instance(exe, workdir, tag, prog, Gfull, ntd, nte, c2, expected, rank_table, timeout=max(60, 6 * tq // 1000 + 30))
+        rr = ptgrun.run_instance(exe, workdir, tag, prog, Gfull, ntd, nte, c2, expected, rank_table, timeout=max(60, 6 * tq // 1000 + 30), erank_table=erank_table)
         tries += 1
         if rr.timeout:
             return [], "timeout", ref
